@@ -261,6 +261,10 @@ impl Property for C12 {
         }
     }
 
+    fn shrink_iters(&self) -> u32 {
+        3000
+    }
+
     fn tape_len(&self) -> usize {
         200
     }
